@@ -48,14 +48,17 @@ func wrapperEntries() []*cat.Strat {
 		}
 		bases = append(bases, base{e, pick})
 	}
+	// a wrapper is independent of the currency and volume units iff everything it wraps is (C18)
+	scaleFree := true
 	one := func(name string, warm int, mk func() strategy.Strategy) *cat.Strat {
-		return &cat.Strat{Name: name, Cfgs: func(bool) [][]float64 { return [][]float64{{}} },
+		return &cat.Strat{Name: name, Cfgs: func(bool) [][]float64 { return [][]float64{{}} }, ScaleFree: scaleFree,
 			New: func([]float64) strategy.Strategy { return mk() }, Warm: func([]float64) int { return warm }}
 	}
 	for _, b := range bases {
 		b := b
 		w := b.e.Warm(b.cfg)
 		tag := b.e.Name + fmtCfg(b.cfg)
+		scaleFree = b.e.ScaleFree
 		out = append(out, one("decorator.Inverse("+tag+")", w, func() strategy.Strategy { return decorator.NewInverseStrategy(b.e.New(b.cfg)) }))
 		out = append(out, one("decorator.NoLoss("+tag+")", w, func() strategy.Strategy { return decorator.NewNoLossStrategy(b.e.New(b.cfg)) }))
 		out = append(out, one("decorator.StopLoss("+tag+")", w, func() strategy.Strategy { return decorator.NewStopLossStrategy(b.e.New(b.cfg), 0.25) }))
@@ -72,16 +75,19 @@ func wrapperEntries() []*cat.Strat {
 			// Or / Split / Majority may act as soon as one wrapped strategy does: their warm-up is the smallest one
 			wmin := min(a.e.Warm(a.cfg), b.e.Warm(b.cfg))
 			tag := a.e.Name + fmtCfg(a.cfg) + "," + b.e.Name + fmtCfg(b.cfg)
+			scaleFree = a.e.ScaleFree && b.e.ScaleFree
 			out = append(out, one("strategy.And("+tag+")", w, func() strategy.Strategy { return strategy.NewAndStrategy("and", a.e.New(a.cfg), b.e.New(b.cfg)) }))
 			out = append(out, one("strategy.Or("+tag+")", wmin, func() strategy.Strategy { return strategy.NewOrStrategy("or", a.e.New(a.cfg), b.e.New(b.cfg)) }))
 			out = append(out, one("strategy.Split("+tag+")", wmin, func() strategy.Strategy { return strategy.NewSplitStrategy(a.e.New(a.cfg), b.e.New(b.cfg)) }))
 			c3 := bases[(i+2*step)%len(bases)]
 			w3 := min(wmin, c3.e.Warm(c3.cfg))
+			scaleFree = a.e.ScaleFree && b.e.ScaleFree && c3.e.ScaleFree
 			out = append(out, one("strategy.Majority("+tag+","+c3.e.Name+fmtCfg(c3.cfg)+")", w3, func() strategy.Strategy {
 				return strategy.NewMajorityStrategyWith("majority", []strategy.Strategy{a.e.New(a.cfg), b.e.New(b.cfg), c3.e.New(c3.cfg)})
 			}))
 		}
 	}
+	scaleFree = true
 	for _, p := range [][4]int{{1, 2, 2, 2}, {2, 3, 1, 3}, {1, 1, 1, 1}} {
 		p := p
 		out = append(out, one(fmt.Sprintf("compound.MacdRsi(macd %d,%d,%d rsi %d)", p[0], p[1], p[2], p[3]), max(p[1]+p[2]-2, p[3]), func() strategy.Strategy {
